@@ -117,8 +117,192 @@ def case_wellformed(ctx, spec):
     return {"nontrivial": nt > 0, "labels": labs}
 
 
-SUBS = {"wellformed": case_wellformed}
+# ---- ill-formed classes ---------------------------------------------------------------------------
+ILL = ["trade_nan_price", "trade_zero_price", "nan_price_open_position", "nan_coupon_open_position", "duplicate_columns", "zero_base_mv", "zero_base_fi", "fi_under_mv", "custom_price_no_bidoffer"]
+
+
+@st.composite
+def ill_spec(draw, klass=None):
+    klass = klass or draw(st.sampled_from(ILL))
+    ds = draw(gen.dates(3, 8, kinds=("bday", "daily", "mixed")))
+    n = len(ds)
+    nt = draw(st.integers(1, 3))
+    tickers = gen.TICKERS[:nt]
+    pr = draw(gen.prices(n, tickers, n_clean=nt))
+    spec = {"class": klass, "dates": ds, "prices": pr, "integer_positions": draw(st.booleans()), "initial_capital": draw(st.sampled_from([1e6, 1e5])), "k": draw(st.integers(1, n - 1)), "bad": draw(st.sampled_from(tickers))}
+    spec["fee"] = draw(gen.fee_spec(gen.min_price(pr), kinds=("none", "fixed", "prop")))
+    spec["spread"] = draw(st.sampled_from([None, 0.01]))
+    spec["amount"] = draw(st.sampled_from([0.1, 0.5, -0.2, 1e-3]))
+    spec["nested"] = draw(st.booleans())
+    spec["mult"] = draw(st.sampled_from([1, 10]))
+    return spec
+
+
+def _tree(bt, spec, fi=False):
+    tickers = sorted(spec["prices"])
+    kids = [bt.core.Security(t, multiplier=spec["mult"]) if spec["mult"] != 1 else t for t in tickers]
+    if spec.get("nested"):
+        sub = bt.core.StrategyBase("sub", children=kids)
+        return bt.core.StrategyBase("root", children=[sub]), "root>sub"
+    return bt.core.StrategyBase("root", children=kids), "root"
+
+
+def _state(bt, root):
+    out = {}
+    for m in root.members:
+        out[m.full_name] = (float(m.capital),) if isinstance(m, bt.core.StrategyBase) else (float(m.position),)
+    return out
+
+
+def case_illformed(ctx, spec):
+    try:
+        return _case_illformed(ctx, spec)
+    except (Violation, Discard):
+        raise
+    except Exception as e:
+        # everything outside must_raise() is a well-formed use of the API
+        raise Violation("well-formed preparation of the %s case raised %s: %s" % (spec["class"], type(e).__name__, str(e)[:200]), signature="ill:setup-raises:" + bt_frame_signature(e))
+
+
+def _case_illformed(ctx, spec):
+    import pandas as pd
+
+    bt = ctx.bt
+    klass = spec["class"]
+    ds = spec["dates"]
+    k = spec["k"]
+    bad = spec["bad"]
+    pr = {t: list(v) for t, v in spec["prices"].items()}
+    cap = spec["initial_capital"]
+    labs = [klass]
+
+    def must_raise(fn, what, unchanged_root=None):
+        before = _state(bt, unchanged_root) if unchanged_root is not None else None
+        try:
+            fn()
+        except Exception as e:
+            if unchanged_root is not None:
+                after = _state(bt, unchanged_root)
+                # a child created lazily by the refused call is fine as long as it is flat
+                diff = {kk: (before.get(kk), after.get(kk)) for kk in after if before.get(kk, (0.0,)) != after.get(kk)}
+                if diff:
+                    raise Violation("%s was refused (%s) but changed the state: %s" % (what, type(e).__name__, diff), signature="ill:%s:partial-write" % klass)
+            return type(e).__name__
+        raise Violation("%s did not raise" % what, signature="ill:%s:no-error" % klass)
+
+    if klass == "duplicate_columns":
+        data = interp.mk_frame(ds, pr)
+        data = pd.concat([data, data[[bad]]], axis=1)
+        must_raise(lambda: bt.Backtest(bt.Strategy("s", [bt.algos.RunDaily(), bt.algos.SelectAll(), bt.algos.WeighEqually(), bt.algos.Rebalance()]), data, progress_bar=False), "Backtest over data with duplicate column %s" % bad)
+        return {"nontrivial": True, "labels": labs}
+    if klass == "fi_under_mv":
+        data = interp.mk_frame(ds, pr)
+        child = bt.core.FixedIncomeStrategy("fi", children=sorted(pr))
+        parent = bt.core.Strategy("mv", [], children=[child])
+        must_raise(lambda: parent.setup(data), "setup of a fixed-income strategy under a market-value parent")
+        # the supported nesting must keep working
+        ok_parent = bt.core.FixedIncomeStrategy("fi_root", children=[bt.core.FixedIncomeStrategy("fi", children=sorted(pr))])
+        try:
+            ok_parent.setup(data)
+        except Exception as e:
+            raise Violation("fixed-income child under a fixed-income parent refused: %s" % e, signature="ill:fi_under_fi-refused")
+        return {"nontrivial": True, "labels": labs}
+    # tree-level classes use the direct API on a set-up tree
+    if klass in ("trade_nan_price", "nan_price_open_position"):
+        pr[bad][k] = None
+    if klass == "trade_zero_price":
+        pr[bad][k] = 0.0
+    data = interp.mk_frame(ds, pr)
+    idx = data.index
+    if klass in ("zero_base_fi", "nan_coupon_open_position"):
+        kind = "CouponPayingSecurity" if klass == "nan_coupon_open_position" else "FixedIncomeSecurity"
+        kids = [getattr(bt.core, kind)(t) for t in sorted(pr)]
+        root = bt.core.FixedIncomeStrategy("root", children=kids)
+        coup = {t: [0.01] * len(ds) for t in pr}
+        if klass == "nan_coupon_open_position":
+            coup[bad][k] = None
+        root.setup(data, coupons=interp.mk_frame(ds, coup))
+        spath = "root"
+    else:
+        root, spath = _tree(bt, spec)
+        kw = {}
+        if spec["spread"] is not None and klass != "custom_price_no_bidoffer":
+            kw["bidoffer"] = data * spec["spread"]
+        root.setup(data, **kw)
+    root.use_integer_positions(bool(spec["integer_positions"]))
+    fee = interp.Fee(spec["fee"])
+    if spec["fee"]["kind"] != "none":
+        root.set_commissions(fee)
+    root.adjust(cap)
+    root.update(idx[0])
+    strat = root
+    for part in spath.split(">")[1:]:
+        strat = strat.children[part]
+    if strat is not root:
+        root.allocate(cap * 0.5, child=strat.name)
+    root.update(idx[0])  # close the date properly before the clock moves (lazy-update protocol)
+    amt = spec["amount"] * cap
+    if klass in ("trade_nan_price", "trade_zero_price"):
+        for d in idx[1 : k + 1]:
+            root.update(d)
+        must_raise(lambda: strat.allocate(amt, child=bad), "allocating %r to %s at price %r" % (amt, bad, pr[bad][k]), unchanged_root=root)
+        must_raise(lambda: strat.rebalance(0.3, bad), "rebalancing %s to 0.3 at price %r" % (bad, pr[bad][k]), unchanged_root=root)
+        return {"nontrivial": True, "labels": labs}
+    if klass == "custom_price_no_bidoffer":
+        strat.allocate(abs(amt), child=bad)
+        root.update(idx[0])
+        sec = strat.children[bad]
+        must_raise(lambda: sec.transact(5.0, price=pr[bad][0] * 1.01), "custom-price transact without bid/offer data", unchanged_root=root)
+        return {"nontrivial": True, "labels": labs}
+    if klass == "nan_price_open_position":
+        strat.allocate(abs(amt), child=bad)
+        root.update(idx[0])
+        for d in idx[1:k]:
+            root.update(d)
+        if strat.children[bad].position == 0:
+            raise Discard("no position opened")
+        must_raise(lambda: (root.update(idx[k]), root.value), "update to %s with a position in %s whose price is missing" % (idx[k], bad))
+        return {"nontrivial": True, "labels": labs}
+    if klass == "nan_coupon_open_position":
+        root.transact(100.0, child=bad)
+        root.update(idx[0])
+        for d in idx[1:k]:
+            root.update(d)
+        must_raise(lambda: (root.update(idx[k]), root.value), "update to %s with a position in %s whose coupon is missing" % (idx[k], bad))
+        return {"nontrivial": True, "labels": labs}
+    if klass == "zero_base_mv":
+        # withdraw everything as a flow on a date without P&L, then a non-flow gain on the next date has no base to be a return on
+        root.allocate(-strat.value, child=strat.name) if strat is not root else None
+        root.update(idx[0])
+        for d in idx[1:k]:
+            root.update(d)
+        node = strat
+        node.adjust(-node.value, flow=True)
+        root.value
+        if k < len(idx):
+            root.update(idx[k])
+        node.adjust(abs(amt), flow=False)
+        must_raise(lambda: root.value, "a non-flow gain of %r on a strategy whose value and flows are zero" % abs(amt))
+        return {"nontrivial": True, "labels": labs}
+    if klass == "zero_base_fi":
+        for d in idx[1 : k + 1]:
+            root.update(d)
+        root.adjust(-root.value, flow=True)
+        root.value
+        root.adjust(abs(amt), flow=False)
+        must_raise(lambda: root.value, "P&L of %r on a fixed-income strategy with zero notional" % abs(amt))
+        return {"nontrivial": True, "labels": labs}
+    raise ValueError(klass)
+
+
+SUBS = {"wellformed": case_wellformed, "illformed": case_illformed}
+STRATS = {"wellformed": gen.backtest_spec, "illformed": ill_spec}
+for _k in ILL:
+    STRATS["ill_" + _k] = (lambda kk: (lambda: ill_spec(klass=kk)))(_k)
+    SUBS["ill_" + _k] = case_illformed
 
 
 def shard(ctx):
-    run_sub(ctx, "wellformed", gen.backtest_spec(), lambda s: case_wellformed(ctx, s), ctx.n(1500, 30000))
+    run_sub(ctx, "wellformed", gen.backtest_spec(), lambda s: case_wellformed(ctx, s), ctx.n(3000, 40000))
+    for k in ILL:
+        run_sub(ctx, "ill_" + k, ill_spec(klass=k), lambda s: case_illformed(ctx, s), ctx.n(160, 3000))
